@@ -1,6 +1,7 @@
 // C01: bottom-up incidence queries == brute-force scan of the top-down definitions, after K <= 2 operations on a base mesh.
 // shard params: 0 base, 1 deletion mode (bit0 deferred, bit1 fast), 2 op1, 3 chunk of the selected op's argument space,
-// 4 op2 (OP_NONE for K=1), 5 fixed argument index of the other op, 6 which op the symbolic selector ranges over (0: op1, 1: op2).
+// 4 op2 (OP_NONE for K=1), 5 fixed argument index of the other op, 6 which op the symbolic selector ranges over (0: op1, 1: op2),
+// 7 op3 (K=3; applied with argument index 0, e.g. collect_garbage).
 #include "ops.h"
 #include "oracle_bu.h"
 
@@ -9,7 +10,7 @@
 #endif
 
 static __attribute__((noinline)) void do_case(unsigned i) {
-  unsigned base = v_param(0), mode = v_param(1), op1 = v_param(2), chunk = v_param(3), op2 = v_param(4), fixed = v_param(5), which = v_param(6);
+  unsigned base = v_param(0), mode = v_param(1), op1 = v_param(2), chunk = v_param(3), op2 = v_param(4), fixed = v_param(5), which = v_param(6), op3 = v_param(7);
   TopologyKernel m;
   set_mode(m, mode);
   build_base(m, base);
@@ -26,6 +27,7 @@ static __attribute__((noinline)) void do_case(unsigned i) {
     if (!op_valid(m, op2, a, b)) { v_witness("C01 case with invalid argument"); return; }
     apply_op(m, op2, a, b);
   }
+  if (op3 != OP_NONE && op_arity_count(m, op3) > 0) { op_decode(m, op3, 0, a, b); if (op_valid(m, op3, a, b)) apply_op(m, op3, a, b); }
   check_bottom_up(m, ORACLE_LEVEL);
   v_witness("C01 case end");
 }
